@@ -3,6 +3,11 @@
 import json, subprocess
 ALL=[f"C{i:02d}" for i in range(1,20)]
 CLAIMED={
+ "C08": dict(
+   text="Breadth-first search over create/remove/rename-over/restart/crash-restart cycles with immediate inode-number reuse; in every state every handle ever issued (live or dead) is used in every procedure and every handle position; dead handles must answer STALE/BADHANDLE and change nothing, live handles must denote the bound object, new handles must never repeat.",
+   note="Trusted: reference model's handle binding. Bounds: depth, two directories, a few names; inode exhaustion/wrap-around of the allocator is not reached (restart-driven reuse instead).",
+   technique="explicit-state search over operation sequences of the implementation with an exhaustive handle/procedure probe in every state",
+   ref="DESIGN.md 4 (C08)"),
  "C10": dict(
    text="In every state of a breadth-first search (namespace alphabet + macro-operations exceeding the inode cache and spanning directory blocks + refused operations + hole-filling reads; inode cache at 100 and scaled to 6) the exact client-visible dump of the running server is compared with a server recovered from the disk image at that point and with a clean restart on the same disk, and caches/allocators are audited against the logical disk.",
    note="Trusted: ExactDump covers everything a client can observe through the procedures used (GETATTR, READ, READLINK, READDIR, READDIRPLUS, LOOKUP); file contents within the probe windows for the sparse file. Bounds: depth, alphabet; fstxn.ICACHESZ scaled to 6 in the second search.",
